@@ -225,7 +225,20 @@ type loopPlan struct {
 	Kinds   []string // per configuration position: fake | direct | ssnone | ss2022 (empty = all fake)
 	Addr    string   // form of the probe address: ip4 (127.0.0.1, default) | ip4mapped ([::ffff:127.0.0.1]) | ip6 ([::1]) | domain
 	Report  []string // per position: form in which a fake/relayed member reports an IPv4 payload source: plain (default) | mapped
+	TCP     *loopTCP // the same group's TCP side (nil = left out of the configuration)
 }
+
+// loopTCP is the TCP side of a mixed group in the real-time stage: in-memory scripted TCP clients
+// (fakeTCP) under their own policy and order. A probing side is probed with the same timeout and
+// interval as the UDP side; its probes are decided at once ('A' = 204 at once, 'D' = dial error at
+// once), so its rounds are over right after each tick.
+type loopTCP struct {
+	Policy  string
+	Order   []int    // configuration position -> TCP fake id
+	Scripts []string // probing policies: per configuration position, one action per round
+}
+
+func (t *loopTCP) probing() bool { return t.Policy != polRoundRobin && t.Policy != polRandom }
 
 func (p *loopPlan) addr() string {
 	if p.Addr == "" {
@@ -266,7 +279,64 @@ func (p *loopPlan) kind(i int) string {
 func relayed(kind string) bool { return kind == "ssnone" || kind == "ss2022" }
 
 func (p *loopPlan) String() string {
-	return fmt.Sprintf("policy=%s address=%s kinds=%v report=%v scripts=%v", p.Policy, p.addr(), p.Kinds, p.Report, p.Scripts)
+	s := fmt.Sprintf("policy=%s address=%s kinds=%v report=%v scripts=%v", p.Policy, p.addr(), p.Kinds, p.Report, p.Scripts)
+	if t := p.TCP; t != nil {
+		s += fmt.Sprintf(" tcp-side={policy=%s order=%v scripts=%v}", t.Policy, t.Order, t.Scripts)
+	}
+	return s
+}
+
+// loopAllowed is the reference for the coarse real-time outcomes: the configuration positions the
+// group may serve after r completed rounds. availability exact; min-max / latency: any client with the
+// fewest unanswered rounds in the window (r <= 32, so the window is the whole history); all unanswered => first.
+func loopAllowed(policy string, scripts []string, r int) []bool {
+	n := len(scripts)
+	silent := make([]int, n)
+	for i := range silent {
+		for k := 0; k < r; k++ {
+			if scripts[i][k] != 'A' {
+				silent[i]++
+			}
+		}
+	}
+	best := silent[0]
+	for _, s := range silent {
+		if s < best {
+			best = s
+		}
+	}
+	out := make([]bool, n)
+	switch policy {
+	case polAvailability:
+		// success counts are exact: the first client with the most answers
+		for i, s := range silent {
+			if s == best {
+				out[i] = true
+				break
+			}
+		}
+	case polMinMax:
+		// a silent round makes the worst latency exactly the timeout; answered-only clients have
+		// small measured worst latencies whose order the harness does not predict
+		if best > 0 {
+			out[0] = true // everybody's worst is the timeout: tie, first in configuration order
+		} else {
+			for i, s := range silent {
+				out[i] = s == 0
+			}
+		}
+	default:
+		// every silent round adds the whole timeout to the sum; answered rounds add well under a
+		// millisecond each, so fewer silent rounds always means a lower average
+		if best == r {
+			out[0] = true // all equal to the timeout
+		} else {
+			for i, s := range silent {
+				out[i] = s == best
+			}
+		}
+	}
+	return out
 }
 
 type loopStats struct {
@@ -276,11 +346,17 @@ type loopStats struct {
 	relayedWins                        bool // some judged round's allowed set starts with a relayed member
 	mismatchWins                       bool // ... with a member whose reported source equals the probe address only modulo 4-in-6 mapping
 	noIPv6                             bool
+
+	tcpSelections int64
+	tcpJudged     int64 // TCP-side selections judged against its own reference / cycle
+	tcpFullCycle  bool  // round-robin TCP side: a full cycle of >= 2 members was handed out
+	sidesDisagree bool  // in some judged window the two sides' references name different configuration positions
 }
 
 type loopSample struct {
-	at  time.Duration // since Start
-	pos int
+	at     time.Duration // since Start
+	pos    int
+	tcpPos int // TCP side: configuration position served at the same instant (-1 if there is no TCP side)
 }
 
 // runLoopPlan returns (violation, inconclusive reason).
@@ -393,11 +469,46 @@ func runLoopPlan(p *loopPlan) (viol, inconclusive string, st loopStats) {
 	cfg.UDP.Probe.Timeout = jsoncfg.Duration(loopTimeout)
 	cfg.UDP.Probe.Interval = jsoncfg.Duration(loopInterval)
 	cfg.UDP.Probe.Address = address
+	tcpMap := map[string]netio.StreamClient{}
+	var tcpFakes []*fakeTCP // by fake id
+	var tcpPosOf []int      // fake id -> configuration position
+	if t := p.TCP; t != nil {
+		tcpFakes, tcpPosOf = make([]*fakeTCP, len(t.Order)), make([]int, len(t.Order))
+		var tnames []string
+		for pos, id := range t.Order {
+			f := &fakeTCP{id: id, name: fmt.Sprintf("t%d", id), times: make([]atomic.Int64, R+4)}
+			if t.probing() {
+				for _, a := range []byte(t.Scripts[pos]) {
+					o := outcome{Kind: kFail}
+					if a == 'A' {
+						o = outcome{Kind: kOK}
+					}
+					f.script = append(f.script, o)
+				}
+			}
+			tcpFakes[id], tcpPosOf[id] = f, pos
+			tcpMap[f.name] = f
+			tnames = append(tnames, f.name)
+		}
+		defer func() {
+			for _, f := range tcpFakes {
+				f.closeAll()
+			}
+		}()
+		cfg.TCP.Policy = clientgroups.ClientSelectionPolicy(t.Policy)
+		cfg.TCP.Clients = tnames
+		cfg.TCP.Probe.Timeout = jsoncfg.Duration(loopTimeout)
+		cfg.TCP.Probe.Interval = jsoncfg.Duration(loopInterval)
+	}
 	var services []shadowsocks.Service
-	if err := cfg.AddClientGroup(zap.NewNop(), map[string]netio.StreamClient{}, udpMap, func(s shadowsocks.Service) { services = append(services, s) }); err != nil {
+	if err := cfg.AddClientGroup(zap.NewNop(), tcpMap, udpMap, func(s shadowsocks.Service) { services = append(services, s) }); err != nil {
 		return "HARNESS: AddClientGroup: " + err.Error(), "", st
 	}
 	group := udpMap["grp"]
+	tcpGroup := tcpMap["grp"]
+	if p.TCP != nil && tcpGroup == nil {
+		return "HARNESS: TCP side not added to the client map", "", st
+	}
 	ctx, cancel := context.WithCancel(context.Background())
 	var wg sync.WaitGroup
 	defer func() {
@@ -430,7 +541,17 @@ func runLoopPlan(p *loopPlan) (viol, inconclusive string, st loopStats) {
 				bad = fmt.Sprintf("NewSession returned %q err %v", info.Name, err)
 				return
 			}
-			samples = append(samples, loopSample{at, id})
+			tcpPos := -1
+			if tcpGroup != nil {
+				d, dinfo := tcpGroup.NewStreamDialer()
+				f, ok := d.(*fakeTCP)
+				if !ok || f.id < 0 || f.id >= len(tcpFakes) || tcpFakes[f.id] != f || dinfo.Name != f.name {
+					bad = fmt.Sprintf("TCP side: NewStreamDialer returned %T %v (info %q), not a member", d, d, dinfo.Name)
+					return
+				}
+				tcpPos = tcpPosOf[f.id]
+			}
+			samples = append(samples, loopSample{at, id, tcpPos})
 			time.Sleep(25 * time.Millisecond)
 		}
 	}()
@@ -463,56 +584,29 @@ func runLoopPlan(p *loopPlan) (viol, inconclusive string, st loopStats) {
 		}
 	}
 
-	// reference: availability exact; min-max/latency: any client with the fewest silent rounds
-	// in the window (R <= 32, so the window is the whole history); all silent => first
-	allowed := func(r int) []bool {
-		silent := make([]int, n)
-		for i := range silent {
-			for k := 0; k < r; k++ {
-				if p.Scripts[i][k] != 'A' {
-					silent[i]++
+	// ... and every member of a probing TCP side was probed once per round, near the tick
+	if t := p.TCP; t != nil && t.probing() {
+		for _, f := range tcpFakes {
+			if q := f.started.Load(); q != int64(R) {
+				return "", fmt.Sprintf("TCP member %s was probed %d times in %d rounds (machine too slow)", f.name, q, R), st
+			}
+			for k := 0; k < R; k++ {
+				at := time.Duration(f.times[k].Load() - start.UnixNano())
+				tick := time.Duration(k+1) * loopInterval
+				if at < tick-loopMargin/2 || at > tick+loopMargin {
+					return "", fmt.Sprintf("TCP member %s round %d probe began at %v, tick %v", f.name, k+1, at, tick), st
 				}
 			}
 		}
-		best := silent[0]
-		for _, s := range silent {
-			if s < best {
-				best = s
+	} else if t != nil {
+		for _, f := range tcpFakes {
+			if q := f.started.Load(); q != 0 {
+				return fmt.Sprintf("SIG=C19/%s/mixed-probed-without-probing-policy TCP member %s of a %s side was probed %d times [%v]", t.Policy, f.name, t.Policy, q, p), "", st
 			}
 		}
-		out := make([]bool, n)
-		switch p.Policy {
-		case polAvailability:
-			// success counts are exact: the first client with the most answers
-			for i, s := range silent {
-				if s == best {
-					out[i] = true
-					break
-				}
-			}
-		case polMinMax:
-			// a silent round makes the worst latency exactly the timeout; answered-only clients have
-			// small measured worst latencies whose order the harness does not predict
-			if best > 0 {
-				out[0] = true // everybody's worst is the timeout: tie, first in configuration order
-			} else {
-				for i, s := range silent {
-					out[i] = s == 0
-				}
-			}
-		default:
-			// every silent round adds the whole timeout to the sum; answered rounds add well under a
-			// millisecond each, so fewer silent rounds always means a lower average
-			if best == r {
-				out[0] = true // all equal to the timeout
-			} else {
-				for i, s := range silent {
-					out[i] = s == best
-				}
-			}
-		}
-		return out
 	}
+
+	allowed := func(r int) []bool { return loopAllowed(p.Policy, p.Scripts, r) }
 	roundLastsTimeout := func(k int) bool { // some client is silent in round k (1-based): the round runs until the timeout
 		for i := range p.Scripts {
 			if p.Scripts[i][k-1] != 'A' {
@@ -521,6 +615,65 @@ func runLoopPlan(p *loopPlan) (viol, inconclusive string, st loopStats) {
 		}
 		return false
 	}
+	// the TCP side, judged on its own: round-robin / random at every sample; a probing policy inside the windows
+	// at least the margin away from every tick (its probes are decided at once)
+	if t := p.TCP; t != nil {
+		n2 := len(t.Order)
+		cands := make([]bool, n2)
+		for i := range cands {
+			cands[i] = true
+		}
+		tcpInitial := -1
+		for j, s := range samples {
+			st.tcpSelections++
+			switch {
+			case t.Policy == polRandom:
+				st.tcpJudged++ // membership was checked when the sample was taken
+			case t.Policy == polRoundRobin:
+				any := false
+				for c := range cands {
+					if cands[c] && (c+j)%n2 != s.tcpPos {
+						cands[c] = false
+					}
+					any = any || cands[c]
+				}
+				if !any {
+					return fmt.Sprintf("SIG=C19/round-robin/mixed-cyclic-order at %v TCP side selection %d went to position %d: not the next one of its own cycle [%v]", s.at, j, s.tcpPos, p), "", st
+				}
+				st.tcpJudged++
+				st.tcpFullCycle = st.tcpFullCycle || (n2 >= 2 && j+1 >= n2)
+			default:
+				k := int(s.at / loopInterval)
+				off := s.at - time.Duration(k)*loopInterval
+				if off <= loopMargin || off >= loopInterval-loopMargin {
+					continue
+				}
+				if k == 0 {
+					if tcpInitial < 0 {
+						tcpInitial = s.tcpPos
+					} else if s.tcpPos != tcpInitial {
+						return fmt.Sprintf("SIG=C19/%s/mixed-switch-before-first-round TCP side changed from position %d to %d at %v [%v]", t.Policy, tcpInitial, s.tcpPos, s.at, p), "", st
+					}
+					continue
+				}
+				a := loopAllowed(t.Policy, t.Scripts, k)
+				st.tcpJudged++
+				if !a[s.tcpPos] {
+					return fmt.Sprintf("SIG=C19/%s/mixed-choice-after-round at %v (after its round %d) TCP side serves position %d, allowed %v [%v]", t.Policy, s.at, k, s.tcpPos, a, p), "", st
+				}
+				// do the two sides' references name different positions here?
+				if off > loopTimeout+loopMargin {
+					u := allowed(k)
+					for i := range u {
+						if u[i] && (i >= len(a) || !a[i]) {
+							st.sidesDisagree = true
+						}
+					}
+				}
+			}
+		}
+	}
+
 	initial := -1
 	prev := make([]bool, n)
 	for _, s := range samples {
@@ -572,11 +725,13 @@ const loopRule = "real time on loopback: UDP group (availability / latency / min
 
 var recLoop = ev.New("C19", "udp-probe-loopback", loopRule+"Random plans (thorough). Non-trivial: >=3 members, a relayed member, first member not always answering; distinct key = plan").
 	Require("policy/availability", "udp-probe-via-relayed-member", "udp-probe-domain-address", "udp-probe-ip-address", "relayed-member-expected-to-win",
-		"udp-probe-ipv4-literal", "payload-source-reported-mapped")
+		"udp-probe-ipv4-literal", "payload-source-reported-mapped", "mixed", "tcp-side-omitted")
 
-var recLoopFixed = ev.New("C19", "udp-probe-loopback-fixed", loopRule+"Twelve fixed plans of 2 rounds run side by side (quick and thorough). Non-trivial: all; distinct key = plan").
+var recLoopFixed = ev.New("C19", "udp-probe-loopback-fixed", loopRule+"Fourteen fixed plans of 2 rounds run side by side (six of them mixed groups: a TCP side of in-memory scripted clients under round-robin, random or a different probing policy, judged on its own at the same instants) (quick and thorough). Non-trivial: all; distinct key = plan").
 	Require("udp-probe-via-relayed-member", "udp-probe-domain-address", "udp-probe-ip-address", "relayed-member-expected-to-win", "relayed-member-expected-to-win/domain",
-		"kind/ssnone", "kind/ss2022", "kind/direct", "domain-resolved-by-owned-resolver")
+		"kind/ssnone", "kind/ss2022", "kind/direct", "domain-resolved-by-owned-resolver",
+		"tcp-side-omitted", "mixed/tcp=round-robin+udp=probing", "mixed/tcp=random+udp=probing", "mixed/tcp=probing+udp=probing", "mixed/tcp=round-robin+udp=min-max-latency",
+		"mixed/tcp=availability+udp=min-max-latency", "mixed/tcp=min-max-latency+udp=availability", "mixed/probing+probing-different-policies", "mixed/sides-references-disagree", "mixed/tcp-round-robin-full-cycle")
 
 // runLoopPlans runs the plans side by side (each one retried once if it fails or misses a
 // real-time assumption) and records them.
@@ -684,6 +839,25 @@ func runLoopPlans(rec *ev.Recorder, plans []*loopPlan, failf func(format string,
 		if st.relayedWins {
 			labels = append(labels, "relayed-member-expected-to-win", "relayed-member-expected-to-win/"+addr)
 		}
+		if t := p.TCP; t == nil {
+			labels = append(labels, "tcp-side-omitted")
+		} else {
+			cls := "probing"
+			if !t.probing() {
+				cls = t.Policy
+			}
+			labels = append(labels, "mixed", "mixed/tcp="+cls+"+udp=probing", "mixed/tcp="+t.Policy+"+udp="+p.Policy)
+			if t.probing() && t.Policy != p.Policy && st.tcpJudged > 0 {
+				labels = append(labels, "mixed/probing+probing-different-policies")
+			}
+			if st.sidesDisagree {
+				labels = append(labels, "mixed/sides-references-disagree")
+			}
+			if st.tcpFullCycle {
+				labels = append(labels, "mixed/tcp-round-robin-full-cycle")
+			}
+			rec.Label("mixed/tcp-side-selections-judged", st.tcpJudged)
+		}
 		nt := n >= 3 && hasRelayed && strings.ContainsAny(p.Scripts[0], "DWF")
 		if rec == recLoopFixed {
 			nt = true
@@ -727,26 +901,50 @@ func TestUDPProbeLoopback(t *testing.T) {
 				p.Kinds = append(p.Kinds, kind)
 				p.Report = append(p.Report, rapid.SampledFrom([]string{"plain", "mapped"}).Draw(rt, "report"))
 			}
+			if rapid.Bool().Draw(rt, "tcpSide") {
+				t := &loopTCP{Policy: rapid.SampledFrom([]string{polRoundRobin, polRandom, polAvailability, polLatency, polMinMax}).Draw(rt, "tcpPolicy")}
+				n2 := rapid.IntRange(1, 4).Draw(rt, "tcpN")
+				ids := make([]int, n2)
+				for i := range ids {
+					ids[i] = i
+				}
+				t.Order = rapid.Permutation(ids).Draw(rt, "tcpOrder")
+				if t.probing() {
+					for i := 0; i < n2; i++ {
+						var b strings.Builder
+						for r := 0; r < R; r++ {
+							b.WriteByte(rapid.SampledFrom([]byte("AAD")).Draw(rt, "tcpAct"))
+						}
+						t.Scripts = append(t.Scripts, b.String())
+					}
+				}
+				p.TCP = t
+			}
 			plans[g] = p
 		}
 		runLoopPlans(recLoop, plans, rt.Fatalf, rt.Logf)
 	})
 }
 
-// TestUDPProbeLoopbackFixed runs twelve fixed two-round plans side by side (about 10 s of wall clock):
+// TestUDPProbeLoopbackFixed runs fourteen fixed two-round plans side by side (about 10 s of wall clock):
 // relayed members (Shadowsocks none, Shadowsocks 2022) must be recognised as healthy and chosen
 // over a dead first member, with the probe address given as IP and as a domain name.
 func TestUDPProbeLoopbackFixed(t *testing.T) {
 	plans := []*loopPlan{
-		{Policy: polAvailability, Addr: "domain", Kinds: []string{"fake", "ssnone", "ss2022"}, Scripts: []string{"DD", "AA", "AA"}},
+		// (round 6: four of the original plans also carry a TCP side with a different policy in the same group)
+		{Policy: polAvailability, Addr: "domain", Kinds: []string{"fake", "ssnone", "ss2022"}, Scripts: []string{"DD", "AA", "AA"},
+			TCP: &loopTCP{Policy: polRoundRobin, Order: []int{2, 0, 1}}},
 		{Policy: polAvailability, Addr: "ip4", Kinds: []string{"ssnone", "ss2022", "fake"}, Scripts: []string{"DD", "AA", "AA"}},
-		{Policy: polLatency, Addr: "domain", Kinds: []string{"direct", "ss2022", "ssnone"}, Scripts: []string{"DD", "AA", "DA"}},
-		{Policy: polMinMax, Addr: "domain", Kinds: []string{"ss2022", "ssnone", "direct"}, Scripts: []string{"FF", "AA", "AA"}},
+		{Policy: polLatency, Addr: "domain", Kinds: []string{"direct", "ss2022", "ssnone"}, Scripts: []string{"DD", "AA", "DA"},
+			TCP: &loopTCP{Policy: polRandom, Order: []int{1, 0}}},
+		{Policy: polMinMax, Addr: "domain", Kinds: []string{"ss2022", "ssnone", "direct"}, Scripts: []string{"FF", "AA", "AA"},
+			TCP: &loopTCP{Policy: polRoundRobin, Order: []int{0, 3, 1, 2}}},
 		{Policy: polAvailability, Addr: "domain", Kinds: []string{"direct", "ssnone"}, Scripts: []string{"AA", "AA"}},
 		{Policy: polAvailability, Addr: "ip4", Kinds: []string{"direct", "ssnone", "ss2022"}, Scripts: []string{"WD", "DA", "AA"}},
 		// IPv4 literal, answers reported from ::ffff:127.0.0.1 by the healthy members (relays, pass-through, and the
 		// direct member's dual-stack socket): they must count as answering under every policy
-		{Policy: polAvailability, Addr: "ip4", Kinds: []string{"fake", "ssnone", "ss2022"}, Report: []string{"plain", "mapped", "mapped"}, Scripts: []string{"DD", "AA", "AA"}},
+		{Policy: polAvailability, Addr: "ip4", Kinds: []string{"fake", "ssnone", "ss2022"}, Report: []string{"plain", "mapped", "mapped"}, Scripts: []string{"DD", "AA", "AA"},
+			TCP: &loopTCP{Policy: polLatency, Order: []int{1, 0}, Scripts: []string{"AA", "DD"}}},
 		{Policy: polLatency, Addr: "ip4", Kinds: []string{"ss2022", "direct", "ssnone"}, Report: []string{"plain", "", "mapped"}, Scripts: []string{"DD", "AA", "DA"}},
 		{Policy: polMinMax, Addr: "ip4", Kinds: []string{"ssnone", "fake", "ss2022"}, Report: []string{"plain", "mapped", "mapped"}, Scripts: []string{"FF", "AA", "AA"}},
 		// the mirror: probe address given as [::ffff:127.0.0.1], answers reported from plain 127.0.0.1
@@ -754,6 +952,13 @@ func TestUDPProbeLoopbackFixed(t *testing.T) {
 		{Policy: polLatency, Addr: "ip4mapped", Kinds: []string{"ss2022", "direct", "fake"}, Report: []string{"mapped", "", "plain"}, Scripts: []string{"WD", "DA", "AA"}},
 		// IPv6 literal: the direct member talks to [::1] (skipped with a label where [::1] cannot be bound)
 		{Policy: polAvailability, Addr: "ip6", Kinds: []string{"ssnone", "direct", "ss2022"}, Scripts: []string{"DD", "AA", "AA"}},
+		// round 6: two probing sides with different policies whose references disagree on the same outcomes
+		// (first member never answers, second answers in round 2 only): after round 2 availability serves the
+		// second member, min-max-latency the first (everybody's worst is the timeout)
+		{Policy: polMinMax, Addr: "ip4", Kinds: []string{"fake", "ssnone"}, Scripts: []string{"DD", "DA"},
+			TCP: &loopTCP{Policy: polAvailability, Order: []int{0, 1}, Scripts: []string{"DD", "DA"}}},
+		{Policy: polAvailability, Addr: "ip4", Kinds: []string{"ssnone", "fake"}, Scripts: []string{"DD", "DA"},
+			TCP: &loopTCP{Policy: polMinMax, Order: []int{1, 0}, Scripts: []string{"DD", "DA"}}},
 	}
 	runLoopPlans(recLoopFixed, plans, t.Fatalf, t.Logf)
 }
